@@ -63,10 +63,15 @@ func c19SessKey(flow, kt string, ci, srv, host, rep int) string {
 	return fmt.Sprintf("%s/%s/c%d/s%d/h%d/r%d", flow, kt, ci, srv, host, rep)
 }
 
+// the two secrets an application configures explicitly (HmacKey set)
+var (
+	c19SecretA = []byte("c19-hmac-secret-A-0123456789abcdef")
+	c19SecretB = []byte("c19-hmac-secret-B-fedcba9876543210")
+)
+
 func c19NewWorld() *c19World {
 	ks := c19NewKeys()
-	secA := []byte("c19-hmac-secret-A-0123456789abcdef")
-	secB := []byte("c19-hmac-secret-B-fedcba9876543210")
+	secA, secB := c19SecretA, c19SecretB
 	k0, k1 := ks.get("ed25519", "server0"), ks.get("ecdsa", "server1")
 	return &c19World{keys: ks, sess: map[string]*c19Sess{}, chBy: map[string]*c19Sess{}, tokBy: map[string]*c19Sess{}, sigs: map[string]struct{}{},
 		servers: []*c19Server{
